@@ -62,7 +62,6 @@ func transportOf(obj interface{}) uintptr {
 	return 0
 }
 
-
 func logFor(obj interface{}) *evlog {
 	var key uintptr
 	if dc, ok := obj.(diam.Conn); ok {
